@@ -63,8 +63,8 @@ func sendEthernet(iface net.Interface, resp *dhcpv4.DHCPv4) error {
 		return fmt.Errorf("Cannot serialize layer: %v", err)
 	}
 	data := buf.Bytes()
-	if verifFrameSink(iface, data) {
-		return nil
+	if done, err := verifFrameSink(iface, data); done {
+		return err
 	}
 
 	fd, err := syscall.Socket(syscall.AF_PACKET, syscall.SOCK_RAW, 0)
